@@ -31,7 +31,8 @@ LEVEL_TEXT = ("Exploration: all (tree, new root) pairs of small generated trees 
               " Generated trees come in several representations of the same values (strided, other dtypes / lists, one array as two columns, read-only where the harness never writes) and half of them were queried, a third put through aborted operations, before use. The translate flag is also given as numpy bool / int."
               " First trees derived by the library (also float64); size sweep, re-rooting / concatenating trees of 5*10^4 nodes and more."
               " redirect_tree called positionally, by keyword and with defaults."
-              " The C03 contract set is active during the workload: results of the two preceding calls are re-verified after every call.")
+              " The C03 contract set is active during the workload: results of the two preceding calls are re-verified after every call."
+              " Twins under custom column names; a 64-bit label column.")
 LEVEL_NOTE = ("Merge-or-link is decided only where the junction distance is clearly below (<5e-6) or "
               "above (>2e-5) the documented 1e-5; with translation requested and coordinates large "
               "enough for float32 residue to reach 1e-5 either outcome is accepted and counted.")
